@@ -128,9 +128,9 @@ func (c *countingMB) SyncLogIndex(ctx context.Context) (filtermaps.SyncRange, er
 
 func run(r *vrt.Run) {
 	r.Rule("case = random chain (50-300 blocks quick, to 600 thorough; 0-40 logs per block from 4 emitters with 0-4 topics out of 6 values, reverting calls, empty blocks) x filtermaps.Params (3 test-sized sets) x history limit x state scheme, mutated by extensions, reorgs of depth 1-50, switches back to abandoned branches, lagging index targets and index restarts; queries = random range filters (address sets, topic positions with wildcards/alternatives, unused values, match-all; numeric / latest / earliest bounds, single block, reversed, beyond head) in quiescent sessions (after WaitIdle, exact) and in sessions concurrent with imports+indexing (any canonical view during the query); one evaluation per query; signature = (session kind, filter shape, index coverage of the range at query time, outcome class, reorg overlap)")
-	nCases := r.N(8, 250)
+	nCases := r.N(9, 240)
 	if r.Race() {
-		nCases = r.N(2, 30)
+		nCases = r.N(3, 30)
 	}
 	if v := os.Getenv("VERIF_ONLY"); v != "" {
 		i, _ := strconv.Atoi(v)
@@ -142,8 +142,10 @@ func run(r *vrt.Run) {
 			q = 4
 		}
 		r.Require("queries_quiescent", 400/q)
-		r.Require("queries_concurrent", 200/q)
-		r.Require("queries_concurrent_overlapping_reorg", 10/q)
+		r.Require("queries_concurrent", 100/q)
+		if !r.Race() {
+			r.Require("queries_concurrent_overlapping_reorg", 10) // schedule dependent: only required of the larger default variant
+		}
 		r.Require("queries_indexed_path", 200/q)
 		r.Require("queries_mixed_or_unindexed_path", 20/q)
 		r.Require("matches_compared", 2000/q)
@@ -206,9 +208,14 @@ type tcase struct {
 	started atomic.Int64
 	done    atomic.Int64
 
-	branches []*mblock // tips of abandoned branches
-	oplog    []string
-	failed   atomic.Bool
+	branches        []*mblock // tips of abandoned branches
+	oplog           []string
+	failed          atomic.Bool
+	dumped          bool
+	sequential      bool
+	extendOnly      bool
+	valuesPerMap    int
+	pendingMismatch []func()
 }
 
 func (c *tcase) head() *mblock { c.mu.Lock(); defer c.mu.Unlock(); return c.chains[len(c.chains)-1] }
